@@ -517,6 +517,32 @@ def check_close_method(repo, res, sc_methods):
                     if direct or (isinstance(a, ast.Name) and a.id in faces):
                         sinks.append(st)
         if not sinks:
+            # accumulate-then-insert: faces of every simplex are gathered in a local collection that is inserted afterwards
+            acc = None
+            for st in own_statements(lp):
+                for c in _calls(st):
+                    if isinstance(c.func, ast.Attribute) and c.func.attr in ("update", "extend", "add", "append") and isinstance(c.func.value, ast.Name) and c.args:
+                        if any(isinstance(x, ast.Call) and getattr(x.func, "attr", getattr(x.func, "id", None)) in ("_subfaces", "powerset") and x.args and base_name(x.args[0]) in same for x in ast.walk(c.args[0])):
+                            acc = c.func.value.id
+                if isinstance(st, ast.AugAssign) and isinstance(st.target, ast.Name) and any(isinstance(x, ast.Call) and getattr(x.func, "attr", getattr(x.func, "id", None)) in ("_subfaces", "powerset") and x.args and base_name(x.args[0]) in same for x in ast.walk(st.value)):
+                    acc = st.target.id
+            if acc is not None and not any(isinstance(b, ast.If) for b in lp.body):
+                consumed = False
+                for st in own_statements(f.node):
+                    for c in _calls(st):
+                        nm = getattr(c.func, "attr", None)
+                        if (nm == "add_simplices_from" or nm in FACE_CONSUMERS) and c.args and isinstance(c.args[0], ast.Name) and c.args[0].id == acc:
+                            consumed = True
+                    if isinstance(st, ast.For) and isinstance(st.iter, ast.Name) and st.iter.id == acc and isinstance(st.target, ast.Name):
+                        v = st.target.id
+                        ins = [c for c in ast.walk(st) if isinstance(c, ast.Call) and getattr(c.func, "attr", None) in ("_add_face", "add_simplex") and c.args and base_name(c.args[0]) == v]
+                        # the only way around the insertion is the skip of empty / already present faces
+                        skips_ok = all(isinstance(b, ast.If) and all(isinstance(x, ast.Continue) for x in b.body) and not b.orelse and all((isinstance(t, ast.UnaryOp) and base_name(t.operand) == v) or (isinstance(t, ast.Call) and getattr(t.func, "attr", None) == "has_simplex") for t in (b.test.values if isinstance(b.test, ast.BoolOp) and isinstance(b.test.op, ast.Or) else [b.test])) for b in st.body if isinstance(b, ast.If))
+                        if ins and skips_ok and any(i in [x for b in st.body for x in ast.walk(b)] for i in ins):
+                            consumed = True
+                if consumed:
+                    ok = True
+                    break
             why = f"the loop over the simplices never hands `_subfaces({var})` to add_simplices_from"
             continue
         # the sink is conditional on nothing but the simplex being non-empty
